@@ -52,6 +52,42 @@ def parseFmt : List String → Option (List FmtItem)
     let r ← parseFmt ts
     pure (it :: r)
 
+/-- container token: `c` followed by dot-separated ints (`c` alone: empty) — a container of the nest's element kind -/
+def parseInts (t : String) : Option (List Int) :=
+  match t.toList with
+  | 'c' :: r =>
+    if r.isEmpty then some []
+    else
+      let parts := (String.ofList r).splitOn "."
+      if parts.length > 16 then none
+      else parts.foldr (fun p acc => do
+        let xs ← acc
+        let i ← parseInt p
+        if decide (-1000000 ≤ i) && decide (i ≤ 1000000) then pure (i :: xs) else none) (some [])
+  | _ => none
+
+def mkInner (ek : IK) (xs : List Int) : Inner :=
+  match ek with
+  | .arr => .arr { ty := .int, items := xs.map Val.int, nslots := xs.length }
+  | .lst => .lst { ty := .int, items := xs.map Val.int }
+  | .tab =>
+    let items := xs.foldl (fun acc x => assocSet acc (.int x) (.int x)) []
+    .tab { kty := .int, vty := .int, items := items, nslots := idealSize xs.length }
+
+def parseIK (t : String) : Option IK :=
+  if t = "arr" then some .arr else if t = "lst" then some .lst else if t = "tab" then some .tab else none
+
+/-- source of `set` / `push` on a nested container: a container token, an Int, a Plain, NULL -/
+def parseNSrc (ek : IK) (t : String) : Option NSrc :=
+  match parseInts t with
+  | some xs => some (.cont (mkInner ek xs))
+  | none =>
+    match parseVal t with
+    | some (.int i) => some (.val (.int i))
+    | some (.plain i) => some (.val (.plain i))
+    | some .null => some (.val .null)
+    | _ => none
+
 /-! #### dumps -/
 
 def showVal : Val → String
@@ -94,6 +130,16 @@ def dump : Obj → String
   | .slc s => s!"C {s.base} {s.rng.start} {s.rng.stop} {s.rng.step} val={s.rng.scratch}"
   | .zip z => s!"Z {z.a} {z.b}"
   | .scalar a v => s!"V {a.name} {showVal v}"
+  | .nest n =>
+    let inner : Inner → String := fun
+      | .arr a => s!"{a.ty.name}({showVals a.items})"
+      | .lst l => s!"{l.ty.name}({showVals l.items})"
+      | .tab t => s!"{t.kty.name}:{t.vty.name}(" ++ showPairs t.items ++ ")"
+    let head := match n.outer with
+      | .arr => s!"NA {n.ek.name} n={n.items.length} cap={n.nslots}"
+      | .lst => s!"NL {n.ek.name} n={n.items.length}"
+    head ++ " [" ++ ";".intercalate (n.items.map inner) ++ "]"
+  | .junk m => match m with | .dead => "J dead" | .bad => "J bad" | .good => "J good"
 
 def showRet : Ret → String
   | .unit => "ok"
@@ -166,6 +212,16 @@ def mkObj (σ : Store) (kind : String) (args : List String) : Option Obj :=
     let a ← parseId a; let b ← parseId b
     let oa ← σ.get? a; let ob ← σ.get? b
     if isSeqObj oa && isSeqObj ob then some (.zip { a := a, b := b }) else none
+  | "narr", ek :: cs => do
+    let ek ← parseIK ek
+    let xs ← cs.foldr (fun t acc => do let r ← acc; let x ← parseInts t; pure (x :: r)) (some [])
+    if xs.length ≤ 40 then some (.nest { outer := .arr, ek := ek, items := xs.map (mkInner ek), nslots := xs.length }) else none
+  | "nlst", ek :: cs => do
+    let ek ← parseIK ek
+    let xs ← cs.foldr (fun t acc => do let r ← acc; let x ← parseInts t; pure (x :: r)) (some [])
+    if xs.length ≤ 40 then some (.nest { outer := .lst, ek := ek, items := xs.map (mkInner ek), nslots := 0 }) else none
+  | "junk", [m] =>
+    if m = "dead" then some (.junk .dead) else if m = "bad" then some (.junk .bad) else none
   | "val", [al, v] => do
     let al ← parseAlloc al; let v ← parseVal v
     match v with
@@ -206,9 +262,36 @@ def smallRng (r : Rng) : Bool :=
   let small := fun (x : Int) => decide (-1000000 ≤ x) && decide (x ≤ 1000000)
   small r.start && small r.stop && small r.step
 
+/-- operation on a nested container -/
+def parseNOp (n : Nest) (name : String) (args : List String) : Option NOp :=
+  match name, args with
+  | "get", [k] => (parseVal k).map .get
+  | "set", [k, v] => do let k ← parseVal k; let v ← parseNSrc n.ek v; pure (.set k v)
+  | "push", [v] => (parseNSrc n.ek v).map .push
+  | "append", [v] => (parseNSrc n.ek v).map .push
+  | "pushat", [v, k] => do let v ← parseNSrc n.ek v; let k ← parseVal k; pure (.pushAt v k)
+  | "pop", [] => some .pop
+  | "popat", [k] => (parseVal k).map .popAt
+  | "len", [] => some .len
+  | "resize", [m] => m.toNat?.bind (fun m =>
+      if m ≤ 64 && (n.outer = .arr || m ≤ n.items.length) then some (.resize m) else none)   -- a List is not grown (zeroed containers)
+  | _, _ => none
+
+/-- a nested container is abandoned after a `set` / Array `push` / `push_at` whose *source* was refused (territory of the assign and
+    F15 findings): the index was fine and the operation still did not succeed.  (A List `push` that fails leaves the list as it was.) -/
+def poisonsN (n : Nest) (op : NOp) (r : Res) : Bool :=
+  match op with
+  | .set k _ => !r.isOk && (resolve n.items.length k).isOk
+  | .push _ => !r.isOk && n.outer = .arr
+  | .pushAt _ k =>
+    !r.isOk && n.outer = .arr &&
+      (match cInt k with | .ok kb => inBoundsIncl n.items.length (normIdxPush n.items.length kb) | _ => false)
+  | _ => false
+
 /-- ops the histories exclude because the model does not describe what follows (the harness applies the same rules) -/
 def excluded (o : Obj) (op : Op) : Bool :=
   match o, op with
+  | .junk _, .print _ _ _ => true                 -- an empty format returns before `Type_Of` is reached
   | .str s, .print pos _ _ => pos > s.s.length
   | _, .print _ (.lit _ :: _) _ => false
   | _, .print _ [] _ => false
@@ -279,16 +362,20 @@ def line (st : St) (l : String) : St × String :=
       | some o =>
         if !basesOk st o then bad else
         -- operations that are not class methods
+        let isJunk := match o with | .junk _ => true | _ => false
         if name = "typeof" then
-          if args.isEmpty then ({ st with nops := st.nops + 1 }, "O ok:" ++ o.typeName ++ " | " ++ dump o) else bad
+          if args.isEmpty then
+            let r := headerCall o (.ok (.name o.typeName))
+            ({ st with nops := st.nops + 1, nraised := st.nraised + (if r.isOk then 0 else 1) }, "O " ++ showRes r ++ " | " ++ dump o)
+          else bad
         else if name = "cast" then
           if args.length = 1 && knownTypes.contains (args.headD "") then
-            let r := castObj o (args.headD "")
+            let r := headerCall o (castObj o (args.headD ""))
             ({ st with nops := st.nops + 1, nraised := st.nraised + (if r.isOk then 0 else 1) }, "O " ++ showRes r ++ " | " ++ dump o)
           else bad
         else if name = "dealloc" then
-          if !args.isEmpty || o.allocK = .heap then bad
-          else ({ st with nops := st.nops + 1, nraised := st.nraised + 1 }, "O " ++ showRes (deallocObj o.allocK) ++ " | " ++ dump o)
+          if !args.isEmpty || (o.allocK = .heap && !isJunk) then bad
+          else ({ st with nops := st.nops + 1, nraised := st.nraised + 1 }, "O " ++ showRes (headerCall o (deallocObj o.allocK)) ++ " | " ++ dump o)
         else if name = "deallocelem" then
           match args with
           | [i] =>
@@ -300,6 +387,18 @@ def line (st : St) (l : String) : St × String :=
              | _, _ => bad)
           | _ => bad
         else
+        match o with
+        | .nest n =>
+          (match parseNOp n name args with
+           | none => bad
+           | some nop =>
+             let (σ', r) := stepN st.store id nop
+             let o' := (σ'.get? id).getD o
+             let dies := poisonsN n nop r
+             ({ st with store := σ', nops := st.nops + 1, nraised := st.nraised + (match r with | .raised _ => 1 | _ => 0),
+                        dead := if dies then id :: st.dead else st.dead },
+              "O " ++ showRes r ++ " | " ++ (if dies then "dead" else dump o')))
+        | _ =>
         -- concat from an object: the source must be another live sequence
         let srcOk := match name, args with
           | "concat", [s] =>
